@@ -162,6 +162,9 @@ def text_forward(asm, acc, m, tup, alias=False, expr=False):
                 ops[k] = exprs.spell_value(rng, a)
                 acc['ctr']['text_expression_operands'] += 1
     line = m + (' ' + ', '.join(ops) if ops else '')
+    if expr or alias:
+        from ..gen import variants
+        line = variants.comment(random.Random('c02-cmt-%s-%r' % (m, tup)), line, 0.5)
     acc['n'] += 1
     o = monitors.observe(asm, pre + line, tap=False)
     st, exp = operands.expected(m, tup)
